@@ -364,6 +364,10 @@ fn doc_class(name: &str) -> &'static str {
         "empty-header"
     } else if name.starts_with("headerless") {
         "headerless-records"
+    } else if name.starts_with("boundary") {
+        "boundary-lengths"
+    } else if name.starts_with("cigar") {
+        "cigar-65535-ops"
     } else {
         "with-header"
     }
@@ -738,11 +742,11 @@ fn var_detect(ch: &Chooser, dels: &[Delivery]) -> Outcome {
 // Conversions read source and result with the reader forced to the independently classified
 // container, so that a conversion verdict is neither a detection nor a labelling verdict.
 
-fn aln_convert(ch: &Chooser) -> Outcome {
+fn aln_convert(ch: &Chooser, docs: &[aln::AlnDoc]) -> Outcome {
     let sets = &ASETS[..5];
     let a = *ch.pick_free("from", sets);
     let b = *ch.pick_free("to", sets);
-    let doc = ch.pick_free("doc", &ADOCS[..]);
+    let doc = ch.pick_free("doc", docs);
     // the two record APIs of the generic reader: boxed trait objects, or the `alignment::Record` enum
     let enum_api = ch.free("reader-api", 2) == 1;
     let fold = a.fmt == AFmt::Cram || b.fmt == AFmt::Cram;
@@ -966,7 +970,12 @@ fn main() {
         ctx.harness(Config::new("variant_container", 0), var_container);
         ctx.harness(Config::new("alignment_detect", 0), |ch| aln_detect(ch, &dels));
         ctx.harness(Config::new("variant_detect", 0), |ch| var_detect(ch, &dels));
-        ctx.harness(Config::new("alignment_convert", 0), aln_convert);
+        // thorough: plus a read whose CIGAR has 65535 operations (BAM's in-place maximum)
+        let mut cdocs: Vec<aln::AlnDoc> = ADOCS.clone();
+        if ctx.thorough() {
+            cdocs.push(aln::cigar_doc());
+        }
+        ctx.harness(Config::new("alignment_convert", 0), |ch| aln_convert(ch, &cdocs));
         ctx.harness(Config::new("variant_convert", 0), var_convert);
     });
 }
